@@ -36,7 +36,11 @@ OBLIGATIONS_ANNEAL = [
     "C19_total_refuted", "C19_total_iff", "C19_accepted_cases", "C19_frozen", "C19_one_after_annealing_refuted", "C19_ge_one_refuted",
     "C19_tie_n_ann", "C19_tie_ctor", "C19_tie_init", "C19_tie_update", "C19_tie_defaults",
 ]
-OBLIGATIONS = list(OBLIGATIONS_ANNEAL)
+OBLIGATIONS_STD = [
+    "C19_std_positive", "C19_std_envelope", "C19_std_changes_only_at_multiples_of_L", "C19_std_factor", "C19_std_factor_iff",
+    "C19_std_guards", "C19_std_runs", "C19_tie_update_std", "C19_tie_adapt", "C19_tie_sampler_guards", "C19_tie_sampler_init",
+]
+OBLIGATIONS = OBLIGATIONS_ANNEAL + OBLIGATIONS_STD
 
 HEADER = """(* REGENERATED on every run from $VERIF_REPO/src/leaspy by harness/props/c19.py — do not edit *)
 From Coq Require Import ZArith QArith Qround Bool List.
@@ -185,12 +189,163 @@ def translate_anneal(out: list):
     out.append(definition("gen_default_frac", [], "Q", coq_Q(Fraction(str(d["n_iter_frac"])))))
 
 
+STD_TYPES = {"_counter": "Z", "acceptation_history_length": "Z", "rate": "Q", "s": "Q",
+             "_mean_acceptation_lower_bound_before_adaptation": "Q", "_mean_acceptation_upper_bound_before_adaptation": "Q",
+             "_adaptive_std_factor": "Q", "lo": "Q", "hi": "Q", "f": "Q"}
+
+
+def subst(e, mapping):
+    if e in mapping:
+        return mapping[e]
+    if isinstance(e, tuple):
+        return tuple(subst(x, mapping) if isinstance(x, tuple) else x for x in e)
+    return e
+
+
+def body_no_doc(fn):
+    return [st for st in fn.body if not (isinstance(st, ast.Expr) and isinstance(st.value, ast.Constant))]
+
+
+def translate_sampler(out: list):
+    G = pysym.load_methods(SRC / "samplers" / "gibbs.py", "GibbsSamplerMixin")
+    B = pysym.load_methods(SRC / "samplers" / "base.py", "AbstractSampler")
+    T = STD_TYPES
+    emq, emz = Emit(T, "Q"), Emit(T, "Z")
+    ren = {("var", "_mean_acceptation_lower_bound_before_adaptation"): ("var", "lo"),
+           ("var", "_mean_acceptation_upper_bound_before_adaptation"): ("var", "hi"),
+           ("var", "_adaptive_std_factor"): ("var", "f")}
+
+    # ---- _update_std
+    mean_call = "self.acceptation_history.mean"
+    src = ast.unparse(G["_update_std"])
+    if src.count(mean_call + "(") != 1 or mean_call + "(dim=0)" not in src:
+        raise Untranslatable("_update_std does not take exactly one mean of the acceptance history over dim=0")
+    ex = pysym.Exec(Spec(types=T, methods=G, opaque_calls=(mean_call,), track_div=True, masked_updates=True))
+    t = ex.run(G["_update_std"].body, {}, {})
+    if pysym.raises(t) != const(False):
+        raise Untranslatable("_update_std may raise")
+    if not (isinstance(t, pysym.Branch) and isinstance(t.then, pysym.Leaf) and isinstance(t.other, pysym.Leaf)):
+        raise Untranslatable("_update_std is no longer `counter += 1; if <due>: <masked updates>`")
+    cnt = pysym.final(t, "_counter", ("var", "_counter"))
+    out.append(definition("gen_std_counter", [("_counter", "Z")], "Z", emz.num(cnt)))
+    out.append(definition("gen_std_crashes", [("_counter", "Z"), ("acceptation_history_length", "Z")], "bool", emz.boolean(crash_cond(t))))
+    out.append(definition("gen_std_due", [("_counter", "Z"), ("acceptation_history_length", "Z")], "bool", emz.boolean(t.cond)))
+    for leaf in (t.then, t.other):
+        extra = {k: v for k, v in leaf.state.items() if k != "_counter"}
+        if extra:
+            raise Untranslatable(f"_update_std assigns {sorted(extra)}")
+    if any(n.startswith("masked-aug") for n, _, _ in t.other.effects):
+        raise Untranslatable("_update_std changes std when the counter is not a multiple of the window length")
+    ups = [(n, kw) for n, kw, _ in t.then.effects if n.startswith("masked-aug")]
+    if not ups or any(n != "masked-aug:std" for n, _ in ups):
+        raise Untranslatable(f"_update_std: masked updates {[n for n, _ in ups]!r}")
+    # fold the masked in-place updates, in program order, into one function of (rate, lo, hi, f, s) for one block
+    cur = ("var", "s")
+    opq = ("opaque", mean_call)
+    for _, kw in ups:
+        mask = subst(subst(kw["mask"], {opq: ("var", "rate")}), ren)
+        val = subst(kw["value"], ren)
+        if "opaque" in repr(mask) or "opaque" in repr(val):
+            raise Untranslatable("_update_std: a mask / factor depends on something else than the mean acceptance")
+        cur = ("ite", mask, ("bin", kw["op"][1], cur, val), cur)
+    out.append(definition("gen_std_adapt", [("rate", "Q"), ("lo", "Q"), ("hi", "Q"), ("f", "Q"), ("s", "Q")], "Q", emq.num(cur)))
+
+    # ---- constructor guards
+    bname = "mean_acceptation_rate_target_bounds"
+    ex = pysym.Exec(Spec(types=T, methods=G, assume_true=(f"isinstance({bname}, Sequence)", f"len({bname}) == 2")))
+    t = ex.run(G["_set_acceptation_bounds"].body, {bname: ("tuple", (("var", "lo"), ("var", "hi")))}, {})
+    out.append(definition("gen_bounds_refused", [("lo", "Q"), ("hi", "Q")], "bool", emq.boolean(pysym.raises(t))))
+    ok_leaves = []
+    pysym.tree_map(t, lambda leaf: ok_leaves.append(leaf) or const(False))
+    stored = [(l.state.get("_mean_acceptation_lower_bound_before_adaptation"), l.state.get("_mean_acceptation_upper_bound_before_adaptation"))
+              for l in ok_leaves if l.kind != "raise"]
+    if len(stored) != 1 or None in stored[0]:
+        raise Untranslatable("_set_acceptation_bounds does not store both bounds on its only accepting path")
+    out.append(definition("gen_bounds_lower", [("lo", "Q"), ("hi", "Q")], "Q", emq.num(stored[0][0])))
+    out.append(definition("gen_bounds_upper", [("lo", "Q"), ("hi", "Q")], "Q", emq.num(stored[0][1])))
+    ex = pysym.Exec(Spec(types=T, methods=G))
+    t = ex.run(G["_set_adaptive_std_factor"].body, {"adaptive_std_factor": ("var", "f")}, {})
+    out.append(definition("gen_factor_refused", [("f", "Q")], "bool", emq.boolean(pysym.raises(t))))
+    st = [l.state.get("_adaptive_std_factor") for l in (pysym.tree_map(t, lambda leaf: ok_leaves.append(leaf) or const(False)), ok_leaves)[1]
+          if l.kind != "raise" and "_adaptive_std_factor" in l.state]
+    if st != [("var", "f")]:
+        raise Untranslatable("_set_adaptive_std_factor does not store the factor as given")
+    # constructor: counter starts at a literal, the two guards are applied to the constructor's arguments
+    init_src = [ast.unparse(x) for x in body_no_doc(G["__init__"])]
+    c0 = [x for x in body_no_doc(G["__init__"]) if isinstance(x, (ast.Assign, ast.AnnAssign))
+          and ast.unparse(x.targets[0] if isinstance(x, ast.Assign) else x.target) == "self._counter"]
+    if len(c0) != 1 or not (isinstance(c0[0].value, ast.Constant) and isinstance(c0[0].value.value, int)):
+        raise Untranslatable("constructor does not initialise self._counter with an integer literal")
+    out.append(definition("gen_counter_init", [], "Z", coq_Z(c0[0].value.value)))
+    for need in ("self._set_acceptation_bounds(mean_acceptation_rate_target_bounds)", "self._set_adaptive_std_factor(adaptive_std_factor)",
+                 "self.scale = self.validate_scale(scale)", "self.std = self.STD_SCALE_FACTOR * self.scale * torch.ones(self.shape_adapted_std)"):
+        if init_src.count(need) != 1:
+            raise Untranslatable(f"GibbsSamplerMixin.__init__ no longer contains `{need}`")
+    vs = ast.unparse(G["validate_scale"])
+    if "if (scale <= 0).any():\n        raise LeaspyInputError" not in vs:
+        raise Untranslatable("validate_scale no longer refuses `(scale <= 0).any()`")
+    # STD_SCALE_FACTOR of the two families
+    tree = ast.parse((SRC / "samplers" / "gibbs.py").read_text())
+    for cls, gname in (("AbstractPopulationGibbsSampler", "gen_std_scale_pop"), ("IndividualGibbsSampler", "gen_std_scale_ind")):
+        vals = [x.value.value for n in ast.walk(tree) if isinstance(n, ast.ClassDef) and n.name == cls for x in n.body
+                if isinstance(x, ast.Assign) and ast.unparse(x.targets[0]) == "STD_SCALE_FACTOR" and isinstance(x.value, ast.Constant)]
+        if len(vals) != 1:
+            raise Untranslatable(f"{cls}.STD_SCALE_FACTOR is not a literal")
+        out.append(definition(gname, [], "Q", coq_Q(Fraction(str(vals[0])))))
+
+    # ---- _update_acceptation_rate: list vocabulary  X[a:] -> skipn a X ;  torch.cat([A, B]) -> A ++ B ;  t.unsqueeze(0) -> [t]
+    def lst(node, env):
+        if isinstance(node, ast.Name) and node.id in env:
+            return env[node.id]
+        if isinstance(node, ast.Attribute) and ast.unparse(node) == "self.acceptation_history":
+            return "w"
+        if (isinstance(node, ast.Subscript) and isinstance(node.slice, ast.Slice) and node.slice.upper is None and node.slice.step is None
+                and isinstance(node.slice.lower, ast.Constant) and isinstance(node.slice.lower.value, int) and node.slice.lower.value >= 0):
+            return f"(skipn {node.slice.lower.value} {lst(node.value, env)})"
+        if (isinstance(node, ast.Call) and ast.unparse(node.func) == "torch.cat" and len(node.args) == 1 and not node.keywords
+                and isinstance(node.args[0], ast.List)):
+            return "(" + " ++ ".join(lst(a, env) for a in node.args[0].elts) + ")"
+        if (isinstance(node, ast.Call) and isinstance(node.func, ast.Attribute) and node.func.attr == "unsqueeze"
+                and ast.unparse(node.func.value) == "accepted" and [ast.unparse(a) for a in node.args] == ["0"] and not node.keywords):
+            return "[row]"
+        raise Untranslatable("_update_acceptation_rate: " + ast.unparse(node))
+    env, new_w = {}, None
+    for stt in body_no_doc(B["_update_acceptation_rate"]):
+        if not (isinstance(stt, ast.Assign) and len(stt.targets) == 1):
+            raise Untranslatable("_update_acceptation_rate: statement " + ast.unparse(stt)[:60])
+        tg = stt.targets[0]
+        if isinstance(tg, ast.Name):
+            env[tg.id] = lst(stt.value, env)
+        elif ast.unparse(tg) == "self.acceptation_history" and new_w is None:
+            new_w = lst(stt.value, env)
+        else:
+            raise Untranslatable("_update_acceptation_rate: assignment to " + ast.unparse(tg))
+    if new_w is None:
+        raise Untranslatable("_update_acceptation_rate does not assign self.acceptation_history")
+    out.append(definition("gen_push", [("w", "list (list bool)"), ("row", "list bool")], "list (list bool)", new_w))
+    hist = [ast.unparse(x) for x in body_no_doc(B["__init__"])]
+    if "self.acceptation_history = torch.zeros((self.acceptation_history_length, *self.shape_acceptation))" not in hist:
+        raise Untranslatable("AbstractSampler.__init__ no longer creates a zero window of acceptation_history_length rows")
+
+    # ---- every sample() ends with: push the acceptances, then adapt
+    n_samples = 0
+    for node in ast.walk(tree):
+        if isinstance(node, ast.FunctionDef) and node.name == "sample":
+            n_samples += 1
+            tail = [ast.unparse(x) for x in node.body[-2:]]
+            if not (len(tail) == 2 and tail[0].startswith("self._update_acceptation_rate(") and tail[1] == "self._update_std()"):
+                raise Untranslatable(f"a sample() method does not end with _update_acceptation_rate(...); _update_std(): {tail!r}")
+    if n_samples != 2:
+        raise Untranslatable(f"{n_samples} sample() methods in gibbs.py (expected population + individual)")
+
+
 def translate(run: Run) -> bool:
     """Regenerate coq/gen/GenC19.v from the working tree; False (and run.broken) when the source no longer
     has a shape the translator understands."""
     try:
         out = [HEADER]
         translate_anneal(out)
+        translate_sampler(out)
         run.gen("GenC19", "\n".join(out))
         run.trusted.append("translator harness/translate/pysym.py + harness/props/c19.py (python ast -> Gallina for the annealing mixin, "
                            "_update_std, the sampler guards, _update_acceptation_rate)")
@@ -446,8 +601,257 @@ def check_anneal(run: Run):
     run.extra["anneal_fraction_cases"] = len(nann_cases)
 
 
+# ----------------------------------------------------------------------------- implementation side: adaptive scale
+
+SAMPLER_HDR = ("From Coq Require Import ZArith QArith Bool List.\n"
+               "From Leaspy Require Import Base.QAux Saem.Anneal Saem.AnnealFloat Sampler.AdaptiveStd Sampler.AdaptiveStdCheck.\n")
+SAMPLER_T = "scfg * Q * list Q * list (list bool) * sobs_t"
+KINDS = {  # name -> (factory string, is individual, variable shape, number of blocks, STD_SCALE_FACTOR)
+    "pop-gibbs-1d": ("Gibbs", False, (3,), 3), "pop-gibbs-2d": ("Gibbs", False, (2, 3), 6),
+    "pop-fastgibbs": ("FastGibbs", False, (2, 3), 2), "pop-mh": ("Metropolis-Hastings", False, (2, 3), 1),
+    "ind-gibbs": ("Gibbs", True, (2,), 4),
+}
+
+
+def nice(x) -> Fraction:
+    """the rational a float setting stands for (0.2 -> 1/5); exact for dyadic values"""
+    return Fraction(x).limit_denominator(1000)
+
+
+def build_sampler(kind, L, bounds, factor, scale):
+    from leaspy.samplers import sampler_factory
+    from leaspy.variables.specs import IndividualLatentVariable, PopulationLatentVariable
+    fac, ind, shape, nb = KINDS[kind]
+    kw = dict(name="v", shape=shape, scale=scale, acceptation_history_length=L,
+              mean_acceptation_rate_target_bounds=bounds, adaptive_std_factor=factor)
+    if ind:
+        return sampler_factory(fac, IndividualLatentVariable, n_patients=nb, **kw)
+    return sampler_factory(fac, PopulationLatentVariable, **kw)
+
+
+def block_scales(kind, raw):
+    """per-block validated scale, recomputed exactly from the raw scale (gibbs.py validate_scale of each family)"""
+    import torch
+    fac, ind, shape, nb = KINDS[kind]
+    t = torch.as_tensor(raw, dtype=torch.float32)
+    vals = [frac(v) for v in t.reshape(-1).tolist()]
+    if ind:
+        return [sum(vals) / len(vals)] * nb
+    if t.ndim == 0:
+        return [vals[0]] * nb
+    if fac == "Gibbs":
+        return vals
+    if fac == "FastGibbs":
+        w = len(vals) // nb
+        return [sum(vals[i * w:(i + 1) * w]) / w for i in range(nb)]
+    return [sum(vals) / len(vals)]
+
+
+def drive_sampler(kind, L, bounds, factor, scale, rows):
+    """Build a real sampler and feed it the acceptance rows through _update_acceptation_rate / _update_std."""
+    import torch
+    r = dict(kind=kind, L=L, bounds=list(bounds) if isinstance(bounds, (list, tuple)) else bounds, factor=factor, stage=None, failure=None,
+             exc=None, stds=[], counter=0, window=[])
+    try:
+        smp = build_sampler(kind, L, bounds, factor, scale)
+    except Exception as e:
+        r.update(stage="init", failure=err_class(e), exc=f"{type(e).__name__}: {str(e)[:120]}")
+        return r, None
+    def snap():
+        # state after the last call that completed (a failing call may leave partial side effects behind)
+        r["counter"] = smp._counter
+        h = smp.acceptation_history
+        r["window"] = [[bool(x) for x in rw] for rw in h.reshape(h.shape[0], max(1, math.prod(h.shape[1:]))).tolist()] if h.shape[0] else []
+    r["stds"].append(smp.std.reshape(-1).tolist())
+    snap()
+    shape_acc = tuple(smp.shape_acceptation)
+    for k, row in enumerate(rows, 1):
+        acc = torch.tensor([1.0 if b else 0.0 for b in row], dtype=torch.float32).reshape(shape_acc)
+        try:
+            smp._update_acceptation_rate(acc)
+            smp._update_std()
+        except Exception as e:
+            r.update(stage=k, failure=err_class(e), exc=f"{type(e).__name__}: {str(e)[:120]}")
+            break
+        r["stds"].append(smp.std.reshape(-1).tolist())
+        snap()
+    return r, smp
+
+
+def coq_scfg(L, lo, hi, f) -> str:
+    return f"{{| hist_len := {coq_Z(L)}; lo := {coq_Q(lo)}; hi := {coq_Q(hi)}; fac := {coq_Q(f)} |}}"
+
+
+def coq_rows(rows) -> str:
+    return coq_list([coq_list([coq_bool(b) for b in row]) for row in rows])
+
+
+def sampler_case(r, sf, scales, rows, lo, hi, f) -> str:
+    runs = []
+    for sd in r["stds"]:
+        if runs and runs[-1][0] == sd:
+            runs[-1][1] += 1
+        else:
+            runs.append([sd, 1])
+    obs = coq_list([f"({coq_list([coq_Q(x) for x in sd])}, {n}%nat)" for sd, n in runs])
+    fail = "None" if r["failure"] is None else f"(Some {r['failure']})"
+    return (f"({coq_scfg(r['L'], lo, hi, f)}, {coq_Q(sf)}, {coq_list([coq_Q(x) for x in scales])}, {coq_rows(rows)}, "
+            f"({obs}, {fail}, {coq_Z(r['counter'])}, {coq_rows(r['window'])}))")
+
+
+def oracle_sampler(run: Run, r, rows, lo, hi, f, inp):
+    """Property clauses checked directly on the implementation's scales (float32), independent of the Coq model."""
+    L, stds = r["L"], r["stds"]
+    if r["failure"] is not None:
+        if L >= 1:
+            run.fail(f"std:raises:{r['exc'].split(':')[0]}", "sampler with a valid configuration does not accept a well-shaped acceptance "
+                     "history", inp, observed=dict(exc=r["exc"], step=r["stage"]))
+        return
+    for k in range(1, len(stds)):
+        prev, cur = stds[k - 1], stds[k]
+        if any(not (math.isfinite(x) and x > 0) for x in cur):
+            run.fail("std:not-positive-finite", "a proposal scale is not positive and finite", dict(inp, step=k), observed=cur)
+            return
+        changed = [j for j in range(len(cur)) if cur[j] != prev[j]]
+        if changed and k % L != 0:
+            run.fail("std:changes-off-multiple", "a proposal scale changes at a step that is not a multiple of acceptation_history_length",
+                     dict(inp, step=k), observed=dict(blocks=changed))
+            return
+        if k % L == 0:
+            win = rows[k - L:k]
+            for j in range(len(cur)):
+                rate = Fraction(sum(1 for rw in win if rw[j]), L)
+                want = 1 - f if rate < lo else 1 + f if rate > hi else Fraction(1)
+                got = frac(cur[j]) / frac(prev[j])
+                if (want == 1) != (cur[j] == prev[j]) or abs(got - want) > Fraction(1, 10 ** 6):
+                    which = "below" if rate < lo else "above" if rate > hi else ("on-bound" if rate in (lo, hi) else "inside")
+                    run.fail(f"std:wrong-factor:rate-{which}-band", "a proposal scale is not multiplied by exactly 1-f / 1+f / 1 according to "
+                             "the block's acceptance rate over the last L steps", dict(inp, step=k, block=j, rate=str(rate)),
+                             expected=float(want), observed=float(got))
+                    return
+
+
+def gen_rows(rng, nb, n, L, lo, hi):
+    """acceptance history: each block gets a target pattern (below / inside / above the band, exactly on a bound, alternating)"""
+    modes = [rng.choice(["low", "high", "mid", "on-lo", "on-hi", "flip", "rand"]) for _ in range(nb)]
+    rows = [[False] * nb for _ in range(n)]
+    for j, m in enumerate(modes):
+        for w0 in range(0, n, max(L, 1)):
+            idx = list(range(w0, min(w0 + max(L, 1), n)))
+            mm = rng.choice(["low", "high", "mid"]) if m == "flip" else m
+            if mm == "on-lo":
+                cnt = lo * L
+                cnt = int(cnt) if cnt.denominator == 1 else math.floor(cnt)
+            elif mm == "on-hi":
+                cnt = hi * L
+                cnt = int(cnt) if cnt.denominator == 1 else math.ceil(cnt)
+            elif mm == "low":
+                cnt = rng.randint(0, max(0, math.ceil(lo * L) - 1))
+            elif mm == "high":
+                cnt = rng.randint(min(L, math.floor(hi * L) + 1), L)
+            elif mm == "mid":
+                cnt = rng.randint(math.ceil(lo * L), max(math.ceil(lo * L), math.floor(hi * L)))
+            else:
+                cnt = rng.randint(0, L)
+            cnt = max(0, min(int(cnt), len(idx)))
+            for i in rng.sample(idx, cnt):
+                rows[i][j] = True
+    return rows, modes
+
+
+def check_samplers(run: Run):
+    from harness.common import use_impl
+    use_impl()
+    import torch
+    thorough = run.tier == "thorough"
+    sf_of = {False: Fraction(1, 100), True: Fraction(1, 2)}
+    cases, meta = [], []
+    configs = [(1, (0.2, 0.4), 0.1), (3, (0.2, 0.4), 0.1), (3, (1 / 3, 2 / 3), 0.25), (4, (0.25, 0.5), 0.5), (25, (0.2, 0.4), 0.1),
+               (25, (0.04, 0.96), 0.9), (5, (0.2, 0.8), 0.01), (2, (0.5, 0.75), 0.125)]
+    reps = 4 if thorough else 1
+    for kind in KINDS:
+        fac_s, ind, shape, nb = KINDS[kind]
+        for ci, (L, bounds, f) in enumerate(configs):
+            for rep in range(reps):
+                rng = run.rng("sampler", kind, ci, rep)
+                lo, hi, fq = nice(bounds[0]), nice(bounds[1]), nice(f)
+                n = (4 * L + 2) if L > 1 else 9
+                if thorough and rep == 3:
+                    n = 12 * L + 1
+                rows, modes = gen_rows(rng, nb, n, L, lo, hi)
+                if ind or rng.random() < 0.3:
+                    scale = rng.choice([0.5, 1.0, 2.0, 0.37])
+                else:
+                    scale = torch.tensor([rng.choice([0.25, 0.5, 1.0, 1.7, 3.0]) for _ in range(math.prod(shape))]).reshape(shape)
+                r, smp = drive_sampler(kind, L, bounds, f, scale, rows)
+                inp = dict(kind=kind, acceptation_history_length=L, bounds=list(bounds), adaptive_std_factor=f,
+                           scale=scale if isinstance(scale, float) else scale.reshape(-1).tolist(), rows=["".join("1" if b else "0" for b in rw) for rw in rows])
+                run.case(("sampler", kind, L, bounds, f, rep), nontrivial=n >= L)
+                run.count("sampler_kind", kind)
+                run.count("window_length", L)
+                for m in modes:
+                    run.count("block_pattern", m)
+                oracle_sampler(run, r, rows, lo, hi, fq, inp)
+                cases.append(sampler_case(r, sf_of[ind], block_scales(kind, scale), rows, lo, hi, fq))
+                meta.append(inp)
+                if len(run.samples) < 4 and L == 3 and kind in ("pop-fastgibbs", "ind-gibbs"):
+                    run.sample(dict(what="sampler", **inp, stds=r["stds"][::L][:4]))
+    # long one-sided history on the real sampler: scales stay positive and finite well inside float32 range
+    n_adapt = 2000 if thorough else 300
+    r, smp = drive_sampler("pop-mh", 1, (0.2, 0.4), 0.1, 1.0, [[False]] * n_adapt)
+    run.case(("sampler-one-sided", n_adapt), nontrivial=True)
+    last = r["stds"][-1][0] if r["stds"] else None
+    run.extra["one_sided_history"] = dict(adaptations=n_adapt, final_std=last, note="float32 underflows to 0 after ~950 decreases by 0.9 "
+                                          "from 0.01 (stated limit of the model: finiteness/positivity are theorems over Q)")
+    if not thorough and not (last and last > 0 and math.isfinite(last)):
+        run.fail("std:not-positive-finite", "scale not positive after 300 one-sided adaptations", dict(kind="pop-mh", L=1, n=n_adapt), observed=last)
+
+    # constructor guards (exact double values), including window lengths 0 and -1
+    guards = []
+    for kind in ("pop-gibbs-1d", "ind-gibbs", "pop-mh"):
+        for bounds in [(0.2, 0.4), (0.0, 0.4), (0.2, 1.0), (0.4, 0.2), (0.3, 0.3), (-0.1, 0.5), (0.2, 1.5), (math.nextafter(0.0, 1), math.nextafter(1.0, 0)),
+                       [0.2, 0.4]]:
+            guards.append((kind, 3, bounds, 0.1, 1.0))
+        for f in [0.0, 1.0, -0.1, 1.5, math.nextafter(0.0, 1), math.nextafter(1.0, 0), 0.5]:
+            guards.append((kind, 3, (0.2, 0.4), f, 1.0))
+        for sc in [0.0, -1.0, 1e-30, 2.0]:
+            guards.append((kind, 3, (0.2, 0.4), 0.1, sc))
+        guards.append((kind, 0, (0.2, 0.4), 0.1, 1.0))
+        guards.append((kind, -1, (0.2, 0.4), 0.1, 1.0))
+    guards.append(("pop-gibbs-1d", 3, (0.2, 0.4), 0.1, torch.tensor([1.0, 0.0, 2.0])))
+    guards.append(("pop-fastgibbs", 3, (0.2, 0.4), 0.1, torch.tensor([[1.0, -1.0, 2.0], [1.0, 1.0, 1.0]])))
+    guards.append(("pop-gibbs-1d", 3, (0.2, 0.4, 0.6), 0.1, 1.0))
+    for kind, L, bounds, f, sc in guards:
+        nb = KINDS[kind][3]
+        rows = [[True] * nb]
+        r, smp = drive_sampler(kind, L, bounds, f, sc, rows)
+        run.case(("sampler-guard", kind, L, tuple(bounds), f, repr(sc)), nontrivial=True)
+        run.count("sampler_guard_outcome", r["failure"] or "accepted")
+        inp = dict(kind=kind, acceptation_history_length=L, bounds=list(bounds), adaptive_std_factor=f,
+                   scale=sc if isinstance(sc, float) else sc.reshape(-1).tolist(), rows=["1" * nb])
+        if len(bounds) != 2:
+            if r["failure"] != "InputError":
+                run.fail("std:bounds-guard", "bounds of length 3 are not refused with an input error", inp, observed=r["exc"])
+            continue
+        raw = [frac(v) for v in torch.as_tensor(sc, dtype=torch.float32).reshape(-1).tolist()]
+        # a refusal is decided on the raw scale entries; otherwise the model gets the per-block validated scale
+        scales = raw if r["stage"] == "init" else block_scales(kind, sc)
+        cases.append(sampler_case(r, sf_of[KINDS[kind][1]], scales, rows, frac(bounds[0]), frac(bounds[1]), frac(f)))
+        meta.append(inp)
+        want_refused = not (0 < bounds[0] < bounds[1] < 1) or not (0 < f < 1) or any(x <= 0 for x in raw)
+        if L >= 0 and want_refused != (r["failure"] == "InputError" and r["stage"] == "init"):
+            run.fail("std:constructor-guard", "constructor guard differs from: refused iff not (0 < lo < hi < 1, 0 < f < 1, scale > 0)", inp,
+                     expected="refused" if want_refused else "accepted", observed=r["exc"] or "accepted")
+    bad = run.vm_bad_indices("sampler", SAMPLER_HDR, SAMPLER_T, cases, "check_sampler", shard=12)
+    for i in bad or []:
+        run.fail("std:model-disagrees", "scales / counter / window / failure class of the real sampler differ from the model run on the same "
+                 "acceptance history", meta[i])
+    run.extra["sampler_cases_compared_in_coq"] = len(cases)
+
+
 def check(run: Run):
     check_anneal(run)
+    check_samplers(run)
 
 
 def main(run: Run):
